@@ -931,8 +931,9 @@ def _degenerate(ts):
     stamps = [0.0]
     last = 0.0
     for t in ts:
-        if t == 0:
+        if t == 0 and last == 0:
             continue
+        # (a first step that is rejected rewinds to exactly t = 0, the stamp of the initial slot)
         if t < last:
             stamps[-1] = t
             last = t
